@@ -44,7 +44,10 @@ func (s PathSet) Add(path Path) {
 // "foo" and "bar".
 func (s PathSet) AddAllSteps(path Path) {
 	for i := 1; i <= len(path); i++ {
-		s.Add(path[:i])
+		// Each prefix is filed with no spare capacity, so that appending to
+		// one member (as returned by List) can't overwrite a step of another
+		// member that shares the same backing array.
+		s.Add(path[:i:i])
 	}
 }
 
